@@ -771,6 +771,7 @@ package rtcp
 //@     invariant 0 <= exp && exp <= 64 && bitrate >= 0 && bitrate * specPow2i(exp) == specRembClamp(p.Bitrate) && (exp == 0 || bitrate >= 1<<17)
 //@     invariant buf[0] == 0x8f && buf[1] == 206 && be16(buf, 2) == uint16((20+4*len(p.SSRCs))/4-1) && be32(buf, 4) == p.SenderSSRC && be32(buf, 8) == 0 && buf[12] == 'R' && buf[13] == 'E' && buf[14] == 'M' && buf[15] == 'B' && int(buf[16]) == len(p.SSRCs)
 //@     decreases 64 - exp
+//@     cases exp 0 64
 //@   loop 2
 //@     invariant 0 <= iter() && iter() <= len(p.SSRCs) && n == 20 + 4*iter()
 //@     invariant unchanged(buf[0]) && unchanged(buf[1]) && unchanged(buf[2]) && unchanged(buf[3]) && unchanged(be32(buf, 4)) && unchanged(be32(buf, 8)) && unchanged(be32(buf, 12)) && unchanged(be32(buf, 16))
